@@ -1,23 +1,34 @@
 use crate::domain::Target;
 use anyhow::{Context, Result};
 use async_std::fs;
-use async_std::path::Path;
+use async_std::path::{Path, PathBuf};
 
 pub async fn clean_target_output_paths(target: &Target) -> Result<()> {
     if let Some(output) = target.output() {
+        let project_dir = &target.metadata().project_dir;
         for resource in &output.files {
+            // Nothing reached through a symbolic link is deleted: a declared path that leads
+            // through a link inside the project is left alone, and a declared path that is
+            // itself a link - however it is spelled (`out/`, `out/.`) - is not followed.
+            let mut output_paths = Vec::with_capacity(resource.paths.len());
+            for path in &resource.paths {
+                match declared_path_without_links(project_dir, path).await {
+                    Some(path) => output_paths.push(path),
+                    None => log::warn!(
+                        "{} - Not cleaning {}: it is reached through a symbolic link",
+                        target,
+                        path.display()
+                    ),
+                }
+            }
+
             if resource.extensions.is_some() {
-                // A declared path that is itself a symbolic link is not followed: what lies
-                // behind it is not beneath the declared path (without extensions, only the link
-                // itself is removed).
-                let mut paths = Vec::with_capacity(resource.paths.len());
-                for path in &resource.paths {
-                    let is_link = fs::symlink_metadata(path)
-                        .await
-                        .map(|metadata| metadata.file_type().is_symlink())
-                        .unwrap_or(false);
-                    if !is_link {
-                        paths.push(path.clone());
+                // Without extensions, only the link itself is removed; with extensions, what lies
+                // behind it is not beneath the declared path.
+                let mut paths = Vec::with_capacity(output_paths.len());
+                for path in output_paths {
+                    if !is_symlink(&path).await {
+                        paths.push(path);
                     }
                 }
                 let resource_files =
@@ -28,7 +39,7 @@ pub async fn clean_target_output_paths(target: &Target) -> Result<()> {
                         .with_context(|| format!("Failed to remove file {}", file.display()))?;
                 }
             } else {
-                for output_path in &resource.paths {
+                for output_path in &output_paths {
                     clean_path(output_path).await?;
                 }
             }
@@ -36,6 +47,34 @@ pub async fn clean_target_output_paths(target: &Target) -> Result<()> {
     }
 
     Ok(())
+}
+
+async fn is_symlink(path: &Path) -> bool {
+    fs::symlink_metadata(path)
+        .await
+        .map(|metadata| metadata.file_type().is_symlink())
+        .unwrap_or(false)
+}
+
+/// The declared path rebuilt from its components (no trailing separator, no `.`: spellings
+/// that would make the system resolve a final symbolic link), or `None` if, below the project
+/// directory, it leads through a symbolic link.
+async fn declared_path_without_links(project_dir: &Path, path: &Path) -> Option<PathBuf> {
+    let below_project_dir = match path.strip_prefix(project_dir) {
+        Ok(below_project_dir) => below_project_dir,
+        Err(_) => return Some(path.components().collect()),
+    };
+
+    let mut rebuilt = project_dir.to_path_buf();
+    let mut components = below_project_dir.components().peekable();
+    while let Some(component) = components.next() {
+        rebuilt.push(component);
+        if components.peek().is_some() && is_symlink(&rebuilt).await {
+            return None;
+        }
+    }
+
+    Some(rebuilt)
 }
 
 async fn clean_path(path: &Path) -> Result<()> {
